@@ -87,11 +87,11 @@ def impl_parsed(case):
             return [float(self.__dict__['_' + nm][t]) for nm in self.names]
 
         def solve_t_before(self, t, *, errors='raise', catch_first_error=True, iteration=None, **kwargs):
-            rec['evlog'].append(['before', int(t), int(iteration)])
+            rec['evlog'].append(['before', int(t if t >= 0 else t + len(self.span)), int(iteration)])      # position, whatever spelling the hook sees
             super().solve_t_before(t, errors=errors, catch_first_error=catch_first_error, iteration=iteration, **kwargs)
 
         def _evaluate(self, t, *, errors='raise', catch_first_error=True, iteration=None, **kwargs):
-            rec['evlog'].append(['pass', int(t), int(iteration)])
+            rec['evlog'].append(['pass', int(t if t >= 0 else t + len(self.span)), int(iteration)])      # position, whatever spelling the hook sees
             rec['pre'].append(self._col(t))
             rec['allfin'].append(bool(all(np.all(np.isfinite(self.__dict__['_' + nm])) for nm in self.names)))
             try:
@@ -105,7 +105,7 @@ def impl_parsed(case):
                 rec['passvecs'].append([float(self.__dict__['_' + nm][t]) for nm in self.check])
 
         def solve_t_after(self, t, *, errors='raise', catch_first_error=True, iteration=None, **kwargs):
-            rec['evlog'].append(['after', int(t), int(iteration)])
+            rec['evlog'].append(['after', int(t if t >= 0 else t + len(self.span)), int(iteration)])      # position, whatever spelling the hook sees
             super().solve_t_after(t, errors=errors, catch_first_error=catch_first_error, iteration=iteration, **kwargs)
 
     n = case['n']
@@ -135,7 +135,7 @@ def impl_parsed(case):
         'out': out,
         'vals': [[lib.fhex(x) for x in m.__dict__['_' + nm]] for nm in names],
         'status': [str(x) for x in m.__dict__['_status']], 'iters': [int(x) for x in m.__dict__['_iterations']],
-        'log': rec['evlog'], 'passvecs': [[lib.fhex(x) for x in v] for v in rec['passvecs']], 'raised': rec['raised'], 'blocked': [],
+        'log': sc.canon_log(rec['evlog'], case['t'], n), 'passvecs': [[lib.fhex(x) for x in v] for v in rec['passvecs']], 'raised': rec['raised'], 'blocked': [],
         'pre': [[lib.fhex(x) for x in v] for v in rec['pre']], 'cols': [[lib.fhex(x) for x in v] for v in rec['cols']],
         'as_scripted': as_scripted, 'names': names, 'where': rec['where'], 'allfin': rec['allfin'],
     }
@@ -319,9 +319,9 @@ def gen(rng, tier):
 
 # --------------------------------------------------------------------------- correspondence
 def correspond(cases, obs, tag, tier):
-    single = [(i, view(c, o), o) for i, (c, o) in enumerate(zip(cases, obs)) if c.get('kind') not in ('multi', 'hist')]
-    multi = [(i, c, o) for i, (c, o) in enumerate(zip(cases, obs)) if c.get('kind') == 'multi']
-    hist = [(i, c, o) for i, (c, o) in enumerate(zip(cases, obs)) if c.get('kind') == 'hist']
+    single = [(i, view(c, o), o) for i, (c, o) in enumerate(zip(cases, obs)) if c.get('kind') not in ('multi', 'hist') and sc.k_comparable(c)]
+    multi = [(i, c, o) for i, (c, o) in enumerate(zip(cases, obs)) if c.get('kind') == 'multi' and sc.k_comparable(c)]
+    hist = [(i, c, o) for i, (c, o) in enumerate(zip(cases, obs)) if c.get('kind') == 'hist' and sc.k_comparable(c)]
     bad, errs = [], []
     if hist:
         b, e = sc.correspond_hist([x[1] for x in hist], [x[2] for x in hist], tag + 'c')
